@@ -5,7 +5,7 @@
    exactly the same observations, and the property's own oracle judges the observations.
    Evaluated by vm_compute; definitions only. *)
 From Coq Require Import ZArith List Bool Arith.
-From TV Require Import Lib.Interleave Gen.BudgetConsts Model.Budget.
+From TV Require Export Lib.Interleave Gen.BudgetConsts Model.Budget.
 Import ListNotations.
 Open Scope Z_scope.
 
@@ -17,7 +17,8 @@ Definition LK : bool := false.
    code: 0 = skipped (thread finished earlier / still blocked), 1 = ran to the end of its program,
          2 = blocked (no hook site reached), 100/101/102/112 = hook site reached;
    done: number of calls the thread has completed so far;
-   cnts: the five pool counters (BudgetStats) read while every thread is parked *)
+   cnts: the five pool counters (BudgetStats) read while every thread is parked; [] when stats()
+         itself panicked (it adds the five counters with overflow checks) *)
 Definition obs := (Z * Z * list Z)%type.
 
 Inductive case :=
@@ -62,6 +63,7 @@ Definition coarse (fuel : nat) (t : nat) (s : St) : St * Z :=
            | None => 0
            end)
   end.
+Definition obs_cnts (s : St) : list Z := if U64 <=? total (sh s) then [] else clist (sh s).
 Definition done_of (s : St) (t : nat) : Z :=
   match lget (thrs s) t with Some th => Z.of_nat (length (tlog th)) | None => 0 end.
 
@@ -71,7 +73,7 @@ Fixpoint sim (fuel : nat) (sched : list nat) (s : St) : list obs * St :=
   | t :: rest =>
       let '(s', code) := coarse fuel t s in
       let '(os, sf) := sim fuel rest s' in
-      ((code, done_of s' t, clist (sh s')) :: os, sf)
+      ((code, done_of s' t, obs_cnts s') :: os, sf)
   end.
 
 Definition model_results (s : St) (n : nat) : list (list Z) :=
@@ -124,23 +126,27 @@ Fixpoint set_nth (l : list nat) (i : nat) (v : nat) : list nat :=
   | x :: r, S i' => x :: set_nth r i' v
   end.
 
-Fixpoint oracle (l : Z) (progs : list (list op)) (results : list (list Z)) (sched : list nat) (ob : list obs)
+Fixpoint oracle (chk_lim : bool) (l : Z) (progs : list (list op)) (results : list (list Z)) (sched : list nat) (ob : list obs)
                 (dones : list nat) (bal taint : counters) : bool :=
   match sched, ob with
   | [], [] => true
   | t :: sched', (_, d, cl) :: ob' =>
-      match counters_of cl, nth_error dones t, nth_error progs t, nth_error results t with
-      | Some c, Some d0, Some pr, Some rs =>
+      match nth_error dones t, nth_error progs t, nth_error results t with
+      | Some d0, Some pr, Some rs =>
           let d1 := Z.to_nat d in
           if (d <? 0) || (d1 <? d0)%nat then false
           else match apply_ops (d1 - d0) d0 pr rs bal taint with
                | None => false
                | Some (bal', taint') =>
-                   (total c <=? l)
-                   && forallb (fun p => (get taint' p =? 1) || (get c p =? get bal' p)) all_pools
-                   && oracle l progs results sched' ob' (set_nth dones t d1) bal' taint'
+                   match counters_of cl with
+                   | Some c =>
+                       (negb chk_lim || (total c <=? l))
+                       && forallb (fun p => (get taint' p =? 1) || (get c p =? get bal' p)) all_pools
+                   | None => negb chk_lim      (* unreadable: the sum of the counters overflowed usize *)
+                   end
+                   && oracle chk_lim l progs results sched' ob' (set_nth dones t d1) bal' taint'
                end
-      | _, _, _, _ => false
+      | _, _, _ => false
       end
   | _, _ => false
   end.
@@ -148,7 +154,13 @@ Fixpoint oracle (l : Z) (progs : list (list op)) (results : list (list Z)) (sche
 Definition spec_ok (c : case) : bool :=
   match c with
   | Case _ l progs sched ob results =>
-      oracle l progs results sched ob (map (fun _ => O) progs) zeroC zeroC
+      oracle true l progs results sched ob (map (fun _ => O) progs) zeroC zeroC
+  end.
+(* the same without clause (a): used to keep the finding classes to limit violations only *)
+Definition accounting_ok (c : case) : bool :=
+  match c with
+  | Case _ l progs sched ob results =>
+      oracle false l progs results sched ob (map (fun _ => O) progs) zeroC zeroC
   end.
 
 (* ---- recorded findings: the class of the first step of the model run that takes the total
@@ -172,7 +184,8 @@ Fixpoint first_over (fuel : nat) (sched : list nat) (s : St) : Z :=
   end.
 Definition known_class (c : case) : Z :=
   match c with
-  | Case limreq _ progs sched _ _ => first_over (fuel_of progs) sched (init limreq (number 0 progs))
+  | Case limreq _ progs sched _ _ =>
+      if accounting_ok c then first_over (fuel_of progs) sched (init limreq (number 0 progs)) else 0
   end.
 
 Fixpoint failures_from (i : Z) (cs : list case) : list (Z * bool * bool * Z) :=
